@@ -191,6 +191,85 @@ def _arm_refuted(extra, facts):
     return any(tri(e, facts) is (not pol) for e, pol in extra)
 
 
+# ---- which limit a truncation helper hands to _truncate_and_render_maxlen_name (symbolic evaluation, all paths)
+SINK = "_truncate_and_render_maxlen_name"
+_DIALECT_LIMIT = re.compile(r"^self\.dialect\.(max_\w+_length)$")
+
+
+def _limit_paths(ctx, prep, m):
+    """[(assignment of the opaque conditions, label of the limit)] for every returning path of IdentifierPreparer
+    method `m` run on opaque arguments (helper methods of the class are interpreted, local aliases carry the label of
+    what they stand for), or None when some path does not end in exactly one `self._truncate_and_render_maxlen_name(..)`
+    whose limit is a plain value."""
+    from ._helpers_rob_c1 import Opaque, Unsupported as U1
+    from ._helpers_str2_k import call_arg, callee_of, explore_effects
+    cache = ctx.__dict__.setdefault("_c21_limit_paths", {})
+    if m.key in cache:
+        return cache[m.key]
+    sink = ctx.func(f"{PREP}.{SINK}")
+    a = m.node.args
+    pos = [x.arg for x in a.posonlyargs + a.args]
+    n_req = len(pos) - len(a.defaults)
+    try:
+        paths = explore_effects(ctx, m, [Opaque(p) for p in pos[:n_req]], cls=prep, no_follow=(SINK, "quote"))
+    except U1:
+        cache[m.key] = None
+        return None
+    out = []
+    for assign, (kind, _v), effects in paths:
+        if kind != "return":
+            continue
+        sinks = [op for op in effects if callee_of(op) == "self." + SINK]
+        lim = call_arg(sinks[0], 1, sink.params[2]) if len(sinks) == 1 else None
+        if not isinstance(lim, Opaque) or lim.call is not None:
+            cache[m.key] = None
+            return None
+        out.append((assign, lim.label))
+    cache[m.key] = out or None
+    return cache[m.key]
+
+
+def _set(assign, attr):
+    """is dialect.<attr> set (truthy / not None) on this path?  None: the path never asked."""
+    lab = f"self.dialect.{attr}"
+    if lab in assign:
+        return assign[lab]
+    if lab + " is None" in assign:
+        return not assign[lab + " is None"]
+    return None
+
+
+def _limit_follows(lim, attr):
+    """problems of the path table `lim` against the documented meaning `dialect.<attr> or dialect.max_identifier_length`."""
+    problems = []
+    for assign, label in lim:
+        t = _set(assign, attr)
+        if t is None:
+            problems.append(f"a path hands on `{label.replace('self.', '', 1)}` without consulting dialect.{attr}")
+        elif t and label != f"self.dialect.{attr}":
+            problems.append(f"with dialect.{attr} set the limit is `{label.replace('self.', '', 1)}`")
+        elif not t and label != "self.dialect.max_identifier_length":
+            problems.append(f"with dialect.{attr} unset the limit is `{label.replace('self.', '', 1)}`")
+    return sorted(set(problems))
+
+
+def _limit_kind(lim):
+    """the dialect sub-limit attribute a path table implements (`<attr> or max_identifier_length`), 'max_identifier_length'
+    when no sub-limit is consulted at all, else None (not understood)."""
+    attrs = set()
+    for assign, label in lim:
+        for txt in list(assign) + [label]:
+            mm = _DIALECT_LIMIT.match(txt[:-len(" is None")] if txt.endswith(" is None") else txt)
+            if mm and mm.group(1) != "max_identifier_length":
+                attrs.add(mm.group(1))
+    good = [a for a in sorted(attrs) if not _limit_follows(lim, a)]
+    if len(good) == 1:
+        return good[0]
+    if not attrs and all(label == "self.dialect.max_identifier_length" for _a, label in lim):
+        return "max_identifier_length"
+    return None
+
+
 @R.rule("C21-R1", floor=8, template="T-TABLE (linear length bound)",
         desc="truncation expressions are statically no longer than their limit; over-long plain names raise "
              "IdentifierError; index/constraint limits are what is passed in; label_length <= max_identifier_length")
@@ -250,18 +329,15 @@ def r1(ctx):
     ok = gv.exit not in reach and bool(raised) and all(raised_name(r_) in ("exc.IdentifierError", "IdentifierError") for r_ in raised)
     ctx.check(ok, v.key, "validate_identifier does not raise IdentifierError when len(ident) > self.max_identifier_length",
               "raises IdentifierError beyond max_identifier_length", v.loc)
+    prep = ctx.index.cls(PREP)
     for meth, attr in (("truncate_and_render_index_name", "max_index_name_length"),
                        ("truncate_and_render_constraint_name", "max_constraint_name_length")):
         m = ctx.func(f"{PREP}.{meth}")
-        calls = [c for c in calls_in(m.node) if dotted(c.func) == "self._truncate_and_render_maxlen_name"]
-        ctx.require(len(calls) == 1, f"{m.key}: expected one call of _truncate_and_render_maxlen_name")
-        arg = calls[0].args[1] if len(calls[0].args) > 1 else next((k.value for k in calls[0].keywords if k.arg == f.params[2]), None)
-        val = expand(m.node, arg) if arg is not None else None
-        txt = unparse(val) if val is not None else ""
-        ok = isinstance(val, ast.BoolOp) and isinstance(val.op, ast.Or) and \
-            [unparse(x) for x in val.values] == [f"self.dialect.{attr}", "self.dialect.max_identifier_length"]
-        ctx.check(ok, m.key, f"limit passed on is `{txt}`, expected dialect.{attr} or dialect.max_identifier_length",
-                  txt, m.loc)
+        lim = _limit_paths(ctx, prep, m)
+        ctx.require(lim is not None, f"{m.key}: not every path ends in one _truncate_and_render_maxlen_name(name, <limit>) call")
+        problems = _limit_follows(lim, attr)
+        ctx.check(not problems, m.key, f"the truncation limit is not `dialect.{attr} or dialect.max_identifier_length`: "
+                  + "; ".join(problems), f"limit = dialect.{attr} or dialect.max_identifier_length on {len(lim)} path(s)", m.loc)
     # SQLCompiler._truncated_identifier
     t = _ti_normal(ctx)
     gt = ctx.cfg(t.node)
@@ -316,17 +392,119 @@ def r1(ctx):
     ctx.check(ok, t.key + ":short-arm",
               f"names not longer than `{thr}` are not passed through unchanged / the threshold exceeds label_length",
               detail, t.loc)
-    # label_length <= max_identifier_length enforced by the dialect
-    d = ctx.func("engine/default.py::DefaultDialect.initialize")
+    # label_length <= max_identifier_length enforced by the dialect ...
+    from ._helpers_rob_a import normal_form
+    d0 = ctx.func("engine/default.py::DefaultDialect.initialize")
+    d = normal_form(ctx, d0, alias=None)         # extracted helpers inlined; locals are followed below (def-use matters here)
     gd = ctx.cfg(d)
-    ok = False
+    defs = local_defs(d.node)
+    LL, MIL = "self.label_length", "self.max_identifier_length"
+
+    def mil_load(e):
+        """the `self.max_identifier_length` load an operand stands for: itself, or the one in the definition of the
+        single-assignment local it names"""
+        if isinstance(e, ast.Name) and e.id in defs:
+            e = defs[e.id]
+        return e if dotted(e) == MIL else None
+
+    checks = []   # (raise, comparison atom, the max_identifier_length load it compares with)
     for n in walk_local(d.node):
         if isinstance(n, ast.Raise) and raised_name(n) in ("exc.ArgumentError", "ArgumentError"):
-            for x, lin, pol, key in _attr_gt_guards(dominating_atoms(gd, n, d.node)):
-                if pol and x == "self.label_length" and lin == "self.max_identifier_length":
-                    ok = True
-    ctx.check(ok, d.key + ":label_length", "label_length > max_identifier_length is no longer rejected with ArgumentError",
-              "label_length <= max_identifier_length enforced", d.loc)
+            for a_, b_, pol, atom in _attr_gt_operands(dominating_atoms(gd, n, d.node)):
+                a_ = defs.get(a_.id, a_) if isinstance(a_, ast.Name) else a_
+                if pol and dotted(a_) == LL and mil_load(b_) is not None:
+                    checks.append((n, atom, mil_load(b_)))
+    ctx.check(bool(checks), d0.key + ":label_length", "label_length > max_identifier_length is no longer rejected with ArgumentError",
+              "label_length <= max_identifier_length enforced", d0.loc)
+    # ... against the FINAL value: initialize() itself lowers max_identifier_length to what the server reports
+    # (_check_max_identifier_length); the validation must read it after every such write, on every path, and nothing
+    # may write it between that read and the comparison.  (T-PATH, def-use ordering)
+    if checks:
+        from ..astutil import attr_stores
+        from ..cfg import no_exc
+        ll_facts = {LL: True, LL + " is None": False}                              # paths of a configured label_length
+        for nm_, v_ in defs.items():
+            if dotted(v_) == LL:
+                ll_facts.update({nm_: True, nm_ + " is None": False})
+        set_ll = edge_ok_under(gd, ll_facts, defs)
+        reads = sorted({i for _n, _a, ld in checks for i in gd.nodes_containing(ld)})
+        tests = sorted({i for _n, atom, _ld in checks for i in gd.nodes_containing(atom)})
+        writes = [(st, i) for tgt, _t, st in attr_stores(d.node) if tgt == MIL for i in gd.nodes_for(st)]
+        ctx.require(reads and tests, f"{d0.key}: the label_length comparison is not found in the CFG")
+        ctx.require(writes, f"{d0.key}: initialize() no longer assigns self.max_identifier_length (server-side detection moved?)")
+        w, what = None, ""
+        for st, i in writes:
+            w = gd.must_pass([i], [gd.exit], reads, edge_ok=set_ll)
+            if w is not None:
+                what = (f"`{unparse(st)[:70]}` (the limit detected on the server) can be followed by a normal return without "
+                        f"label_length being compared with the new value: the check reads max_identifier_length before "
+                        f"this write, so a label_length between the detected and the class-level limit is accepted and "
+                        f"generated labels exceed the dialect's limit")
+                break
+            stale = [r_ for r_ in reads if i in gd.reachable([r_], edge_ok=no_exc) and set(tests) & gd.reachable([i], edge_ok=no_exc)
+                     and r_ not in tests]
+            if stale:
+                w = gd.witness(stale, [i], edge_ok=no_exc)
+                what = f"`{unparse(st)[:70]}` lies between the read of max_identifier_length and its comparison with label_length"
+                break
+        if w is None:
+            w = gd.must_pass([gd.entry], [gd.exit], reads, edge_ok=set_ll)
+            if w is not None:
+                what = "initialize() can return normally, with a label_length configured, without comparing it with max_identifier_length"
+        if w is None:
+            # ... and once it is read, a too large label_length never returns normally (whatever else the test asks)
+            too_large = dict(ll_facts)
+            for _n, atom, _ld in checks:
+                k_, p_ = canon_atom(atom)
+                too_large[k_] = (type(atom.ops[0]) in (ast.Gt, ast.Lt)) == p_
+            ok_large = edge_ok_under(gd, too_large, defs)
+            for r_ in reads:
+                if gd.exit in gd.reachable([r_], edge_ok=ok_large):
+                    w = gd.witness([r_], [gd.exit], edge_ok=ok_large)
+                    what = ("a label_length greater than max_identifier_length can pass initialize() without ArgumentError "
+                            "(the rejection depends on a further condition)")
+                    break
+        ctx.check(w is None, d0.key + ":label_length:after-last-write", what,
+                  f"{len(writes)} write(s) of max_identifier_length, each followed by the label_length check on every path", d0.loc, w)
+        # subclasses: an initialize() override that assigns max_identifier_length must do so before delegating to the
+        # base implementation (which validates), not after it
+        base = ctx.index.cls("engine/default.py::DefaultDialect")
+        n_over, late = 0, []
+        for k in ctx.index.subclasses(base):
+            m = k.methods.get("initialize")
+            if m is None or m.type_only:
+                continue
+            n_over += 1
+            sw = [(st, i) for tgt, _t, st in attr_stores(m.node) if tgt == MIL for i in ctx.cfg(m).nodes_for(st)]
+            if not sw:
+                continue
+            gm = ctx.cfg(m)
+            ctx.functions_analysed.add(m.key)
+            sup = [nd.id for nd in gm.nodes if nd.stmt is not None and isinstance(nd.stmt, ast.stmt)
+                   and any((call_name(c) or "").endswith(".initialize") for c in calls_in(nd.stmt))]
+            for st, i in sw:
+                if gm.must_pass([i], [gm.exit], sup, edge_ok=no_exc) is not None:
+                    late.append(f"{m.key}: `{unparse(st)[:60]}`")
+        ctx.check(not late, d0.key + ":label_length:subclass-writes",
+                  "max_identifier_length is assigned after the base initialize() validated label_length against it: " + "; ".join(late),
+                  f"{n_over} initialize() override(s), none assigns max_identifier_length after the validation", d0.loc)
+
+
+def _attr_gt_operands(atoms):
+    """[(a, b, polarity, atom)] for atoms `a > b` / `b < a` / `not a <= b` (operand nodes, any spelling)."""
+    out = []
+    for e, pol in atoms:
+        if isinstance(e, ast.Compare) and len(e.ops) == 1:
+            l, r_, op = e.left, e.comparators[0], type(e.ops[0])
+            if op is ast.Gt:
+                out.append((l, r_, pol, e))
+            elif op is ast.Lt:
+                out.append((r_, l, pol, e))
+            elif op is ast.LtE:
+                out.append((l, r_, not pol, e))
+            elif op is ast.GtE:
+                out.append((r_, l, not pol, e))
+    return out
 
 
 def _attr_gt_guards(atoms):
@@ -837,25 +1015,27 @@ def r5(ctx):
 DDL_NAME_LIMIT = {"sql/schema.py::Index": "max_index_name_length", "sql/schema.py::Constraint": "max_constraint_name_length"}
 
 
-def _limit_helpers(ctx, prep):
-    """IdentifierPreparer method name -> the dialect.max_*_name_length attribute its truncation limit starts with."""
+def _limit_helpers(ctx, prep, fc):
+    """name of an IdentifierPreparer method format_constraint returns through -> the dialect limit that method truncates
+    against: 'max_index_name_length' / 'max_constraint_name_length' (each falling back to max_identifier_length) or
+    plain 'max_identifier_length'.  Decided by evaluating the method on every path, so the limit may be computed in
+    place, through locals, or in a shared helper method."""
     out = {}
-    for name, m in prep.methods.items():
-        calls = [c for c in calls_in(m.node) if dotted(c.func) == "self._truncate_and_render_maxlen_name"]
-        if not calls:
+    for r_ in returns_of(fc.node):
+        v = r_.value
+        nm = dotted(v.func) if isinstance(v, ast.Call) else None
+        if not nm or not nm.startswith("self.") or nm.count(".") != 1:
             continue
-        binds = {n: val for n, val, _st in name_stores(m.node) if val is not None}
-        attrs = set()
-        for c in calls:
-            arg = c.args[1] if len(c.args) > 1 else next((k.value for k in c.keywords if k.arg == "max_"), None)
-            ctx.require(arg is not None, f"{m.key}: no limit passed to _truncate_and_render_maxlen_name")
-            val = binds.get(arg.id, arg) if isinstance(arg, ast.Name) else arg
-            for n in ast.walk(val):
-                d = dotted(n) if isinstance(n, ast.Attribute) else None
-                if d and d.startswith("self.dialect.max_") and d != "self.dialect.max_identifier_length":
-                    attrs.add(d.rsplit(".", 1)[1])
-        ctx.require(len(attrs) == 1, f"{m.key}: the truncation limit does not start from exactly one dialect.max_*_name_length ({sorted(attrs)})")
-        out[name] = attrs.pop()
+        m = ctx.index.resolve_method(prep, nm.split(".")[1])
+        if m is None or m.name in out or m.name == SINK:
+            continue
+        lim = _limit_paths(ctx, prep, m)
+        if lim is None:
+            continue
+        kind = _limit_kind(lim)
+        ctx.require(kind is not None, f"{m.key}: the truncation limit is not understood: "
+                    + "; ".join(sorted({f"{lab} when {a}" for a, lab in lim}))[:300])
+        out[m.name] = kind
     return out
 
 
@@ -908,9 +1088,8 @@ def r6(ctx):
     prep = ix.cls(PREP)
     fc = ctx.func(f"{PREP}.format_constraint")
     p_c = fc.params[1]
-    helpers = _limit_helpers(ctx, prep)
-    ctx.require(set(helpers.values()) >= set(DDL_NAME_LIMIT.values()),
-                f"IdentifierPreparer no longer has truncation helpers for {sorted(DDL_NAME_LIMIT.values())} (found {helpers})")
+    helpers = _limit_helpers(ctx, prep, fc)
+    ctx.require(helpers, f"{fc.key}: no return through a method that ends in _truncate_and_render_maxlen_name()")
     g = ctx.cfg(fc)
     exits = []  # (return stmt, limit attr)
     for r_ in returns_of(fc.node):
@@ -945,7 +1124,8 @@ def r6(ctx):
         r_, attr = chosen[0]
         ctx.check(attr == expected, key,
                   f"the name of a {k.name} (visit name '{vn}') is truncated by `{unparse(r_.value.func)}()` against "
-                  f"dialect.{attr}, but {'an index' if expected.startswith('max_index') else 'a constraint'} name is limited by "
+                  f"dialect.{attr}{' only' if attr == 'max_identifier_length' else ''}, but "
+                  f"{'an index' if expected.startswith('max_index') else 'a constraint'} name is limited by "
                   f"dialect.{expected}: with {expected} < {attr} the rendered name exceeds the dialect's limit",
                   f"'{vn}' -> dialect.{attr}", fc.loc)
 
@@ -1199,3 +1379,95 @@ R.mutant("r3-if-else-counter-advanced-only-for-new-class", COMP,
 R.mutant("r3-if-else-counter-read-of-other-class", COMP,
          sub("            counter = self._truncated_counters.get(ident_class, 1)\n",
              "            counter = self._truncated_counters.get(name, 1)\n"), "C21-R3")
+
+# ---- str2-k: round-2 seeds C21_3 (label_length validated before the server-side limit is detected) and C21_4
+#      (constraint names no longer truncated against max_constraint_name_length after a de-duplication) -------------
+_LL_CHECK = ('        if (\n            self.label_length\n            and self.label_length > self.max_identifier_length\n        ):\n'
+             '            raise exc.ArgumentError(\n                "Label length of %d is greater than this dialect\'s"\n'
+             '                " maximum identifier length of %d"\n'
+             '                % (self.label_length, self.max_identifier_length)\n            )\n')
+_LL_DETECT = ('        if not self._user_defined_max_identifier_length:\n'
+              '            max_ident_length = self._check_max_identifier_length(connection)\n'
+              '            if max_ident_length:\n                self.max_identifier_length = max_ident_length\n')
+_INIT_HEAD = '    def initialize(self, connection: Connection) -> None:\n        try:\n            self.server_version_info = self._get_server_version_info(\n'
+_DEFAULT = "engine/default.py"
+
+
+def _init_edit(head="", check=_LL_CHECK, detect=_LL_DETECT, extra_method=""):
+    """DefaultDialect.initialize with `head` inserted at its top, the detection block and the label_length check replaced."""
+    return chain(sub(_LL_DETECT + "\n" + _LL_CHECK, detect + ("\n" if detect and check else "") + check),
+                 sub(_INIT_HEAD, extra_method + _INIT_HEAD.replace("        try:\n", head + "        try:\n", 1)))
+
+
+_LL_HELPER = ('    def _validate_label_length(self) -> None:\n' + _LL_CHECK + '\n')
+R.mutant("r1-seed3-label-length-validated-before-detection", _DEFAULT, _init_edit(head=_LL_CHECK + "\n", check=""), "C21-R1")
+R.mutant("r1-label-length-helper-called-before-detection", _DEFAULT,
+         _init_edit(head="        self._validate_label_length()\n", check="", extra_method=_LL_HELPER), "C21-R1")
+R.mutant("r1-label-length-compared-with-limit-read-before-detection", _DEFAULT,
+         _init_edit(head="        ident_limit = self.max_identifier_length\n",
+                    check='        if self.label_length and self.label_length > ident_limit:\n'
+                          '            raise exc.ArgumentError("Label length %d exceeds %d" % (self.label_length, ident_limit))\n'), "C21-R1")
+R.mutant("r1-label-length-checked-only-without-user-defined-limit", _DEFAULT,
+         _init_edit(check=_LL_CHECK.replace("            self.label_length\n            and", "            self.label_length\n            and not self._user_defined_max_identifier_length\n            and", 1)
+                    .replace("        if (\n", "        if not self._user_defined_max_identifier_length and (\n", 1)
+                    .replace("            and not self._user_defined_max_identifier_length\n", "", 1)), "C21-R1")
+R.mutant("r1-detection-moved-behind-label-length-check", _DEFAULT,
+         sub(_LL_DETECT + "\n" + _LL_CHECK, _LL_CHECK + "\n" + _LL_DETECT), "C21-R1")
+R.mutant("benign-label-length-check-in-helper-after-detection", _DEFAULT,
+         _init_edit(check="        self._validate_label_length()\n", extra_method=_LL_HELPER), None)
+R.mutant("benign-detection-in-helper-before-label-length-check", _DEFAULT,
+         _init_edit(detect="        self._detect_max_identifier_length(connection)\n",
+                    extra_method='    def _detect_max_identifier_length(self, connection) -> None:\n'
+                                 '        if self._user_defined_max_identifier_length:\n            return\n'
+                                 '        detected = self._check_max_identifier_length(connection)\n'
+                                 '        if detected:\n            self.max_identifier_length = detected\n\n'), None)
+R.mutant("benign-label-length-compared-with-limit-local-read-after-detection", _DEFAULT,
+         _init_edit(check='        ident_limit = self.max_identifier_length\n        label_length = self.label_length\n'
+                          '        if label_length and label_length > ident_limit:\n'
+                          '            raise exc.ArgumentError("Label length %d exceeds %d" % (label_length, ident_limit))\n'), None)
+R.mutant("benign-label-length-check-inverted-early-return", _DEFAULT,
+         _init_edit(check='        if not self.label_length:\n            return\n'
+                          '        if self.label_length <= self.max_identifier_length:\n            return\n'
+                          '        raise exc.ArgumentError("Label length %d exceeds %d" % (self.label_length, self.max_identifier_length))\n'), None)
+R.mutant("benign-label-length-checked-before-and-after-detection", _DEFAULT, _init_edit(head=_LL_CHECK + "\n"), None)
+
+_IDX_LIMIT = ('        max_ = (\n            self.dialect.max_index_name_length\n            or self.dialect.max_identifier_length\n        )\n')
+_CON_LIMIT = ('        max_ = (\n            self.dialect.max_constraint_name_length\n            or self.dialect.max_identifier_length\n        )\n')
+_SINK_DEF = "    def _truncate_and_render_maxlen_name(\n"
+
+
+def _limit_dedup(helper_body):
+    return chain(sub(_IDX_LIMIT, "        max_ = self._effective_max_length(is_index=True)\n"),
+                 sub(_CON_LIMIT, "        max_ = self._effective_max_length(is_index=False)\n"),
+                 sub(_SINK_DEF, "    def _effective_max_length(self, is_index: bool) -> int:\n" + helper_body + "\n" + _SINK_DEF))
+
+
+R.mutant("r6-seed4-dedup-helper-drops-constraint-limit", COMP,
+         _limit_dedup("        dialect = self.dialect\n        if is_index and dialect.max_index_name_length:\n"
+                      "            return dialect.max_index_name_length\n        return dialect.max_identifier_length\n"), ("C21-R6", "C21-R1"))
+R.mutant("r6-constraint-names-against-identifier-limit", COMP,
+         sub(_CON_LIMIT, "        max_ = self.dialect.max_identifier_length\n"), ("C21-R6", "C21-R1"))
+R.mutant("r6-dedup-helper-sublimits-swapped", COMP,
+         _limit_dedup("        dialect = self.dialect\n        if is_index:\n            sub_limit = dialect.max_constraint_name_length\n"
+                      "        else:\n            sub_limit = dialect.max_index_name_length\n"
+                      "        return sub_limit or dialect.max_identifier_length\n"), ("C21-R6", "C21-R1"))
+R.mutant("r1-constraint-limit-identifier-length-wins", COMP,
+         sub(_CON_LIMIT, "        max_ = (\n            self.dialect.max_identifier_length\n            or self.dialect.max_constraint_name_length\n        )\n"),
+         ("C21-R6", "C21-R1"))
+R.mutant("benign-limit-dedup-helper-keeps-both-sublimits", COMP,
+         _limit_dedup("        dialect = self.dialect\n        if is_index:\n            sub_limit = dialect.max_index_name_length\n"
+                      "        else:\n            sub_limit = dialect.max_constraint_name_length\n"
+                      "        return sub_limit or dialect.max_identifier_length\n"), None)
+R.mutant("benign-limit-dedup-helper-early-returns", COMP,
+         _limit_dedup("        dialect = self.dialect\n        if is_index and dialect.max_index_name_length:\n"
+                      "            return dialect.max_index_name_length\n"
+                      "        if not is_index and dialect.max_constraint_name_length:\n"
+                      "            return dialect.max_constraint_name_length\n        return dialect.max_identifier_length\n"), None)
+R.mutant("benign-constraint-limit-through-locals-reassigned", COMP,
+         sub(_CON_LIMIT, "        dialect = self.dialect\n        max_ = dialect.max_constraint_name_length\n"
+                         "        if not max_:\n            max_ = dialect.max_identifier_length\n"), None)
+R.mutant("benign-constraint-limit-conditional-expression-keyword-argument", COMP,
+         sub(_CON_LIMIT + "        return self._truncate_and_render_maxlen_name(\n            name, max_, _alembic_quote\n        )\n",
+             "        d = self.dialect\n        return self._truncate_and_render_maxlen_name(\n            name,\n"
+             "            max_=d.max_identifier_length if d.max_constraint_name_length is None else d.max_constraint_name_length,\n"
+             "            _alembic_quote=_alembic_quote,\n        )\n"), None)
